@@ -46,6 +46,18 @@ theorem svg_path_lex_roundtrip : type_of% @Verif.Props.C05.path_lex_roundtrip :=
     from its bytes by the independent XML 1.0 tokeniser exactly -/
 theorem xml_lex_roundtrip : type_of% @Verif.Proofs.C09Xml.xml_lex_roundtrip := @Verif.Proofs.C09Xml.xml_lex_roundtrip
 
+/-- **XML tokeniser soundness** (specification side): whatever the tokeniser returns is grammatical and is read back
+    from its own serialisation -/
+theorem xml_lex_sound : type_of% @Verif.Proofs.C09Xml.xml_lex_sound := @Verif.Proofs.C09Xml.xml_lex_sound
+
+/-- **XML, bytes level, no guard**: for every byte string the independent tokeniser accepts, the output of the model of
+    `xml.Minify` on its tokens is accepted again and re-tokenises to exactly the intended stream -/
+theorem xml_accepted_in_accepted_out : type_of% @Verif.Proofs.C09Xml.xml_accepted_in_accepted_out :=
+  @Verif.Proofs.C09Xml.xml_accepted_in_accepted_out
+
+/-- every finite sequence of passes (any options) over an accepted document is defined and ends in an accepted document -/
+theorem xml_passes_defined : type_of% @Verif.Proofs.C09Xml.xml_passes_defined := @Verif.Proofs.C09Xml.xml_passes_defined
+
 /-- **XML flagship** (guard: trigger of K-C09-Xml-1): for all options and all lexer-contract streams with grammatical
     tokens, the output bytes of the model of `xml.Minify` re-tokenise to exactly the emitted stream (reader's view),
     which is grammatical -/
